@@ -5,7 +5,7 @@ from mc.core import Res
 from mc import keys as K
 from mc import recips as R
 from mc import adapt as A
-from refpgp import enc as renc, msg as rmsg, wire, keys as rkeys, armor as rarmor
+from refpgp import enc as renc, msg as rmsg, wire, keys as rkeys, armor as rarmor, sig as rsig
 
 T_LIT = 1400000000
 
@@ -62,6 +62,7 @@ class Prop(object):
         if tier == 'thorough':
             u.append(('bodies', {'comp': 'ZIP', 'fmt': 'b', 'seed': seed, 'big': 4 << 20}))
         u.append(('kdf', {}))
+        u.append(('refused', {}))
         for lo in range(0, 256, 32):
             u.append(('garbage', {'lo': lo, 'hi': lo + 32}))
         for rc in ('rsa2048', 'cv25519', 'ecdh-p256', 'pass'):
@@ -394,6 +395,86 @@ class Prop(object):
             if oc != 'ok':
                 r.viol('foreign', dict(tags, stage='pgpy-decrypt-foreign', kind=oc, variant='+'.join(sorted(variant)) or 'plain'), case,
                        '%s (recipient %s): %s' % (label, rc, '; '.join(probs)))
+
+    def c_refused(self, case):
+        """A recipient PGPy cannot encrypt to (an ElGamal encryption subkey: NotImplementedError; a key without any encryption-capable component: refused)
+        is tried as the next recipient of a message that is already encrypted to someone - the call raises, the caller catches it and goes on.  The
+        message is then what it was before the attempt: well-formed, naming the recipients it had, decryptable; and a further, valid recipient can
+        still be added."""
+        import pgpy
+        from pgpy.constants import SymmetricKeyAlgorithm
+        r = Res()
+        prim = K.raw('ed25519a', K.T0)
+        d = K.raw('dsa1024', K.T0)
+        elg = {'alg': 'elgamal', 'p': d['p'], 'g': d['g'], 'y': d['y'], 'x': d['x'], 'created': K.T0, 'name': 'elgamal'}
+        pbody = rkeys.public_body(prim)
+
+        def mk(typ, subj, extra):
+            return wire.packet(2, rsig.make(prim, typ, 8, rsig.sp_created(K.T0 + 5) + rsig.sp_issuer_fpr(rkeys.fingerprint(prim)) + extra, rsig.sp_issuer(rkeys.keyid(prim)), subj))
+        uid = b'ElGamal Holder <elg@example.org>'
+        blob = rkeys.public_packet(prim) + wire.packet(13, uid) + mk(0x13, {'key': pbody, 'uid': uid}, wire.subpacket(27, b'\x03')) + \
+            rkeys.public_packet(elg, sub=True) + mk(0x18, {'key': pbody, 'subkey': rkeys.public_body(elg)}, wire.subpacket(27, b'\x0c'))
+        refusing = {'elgamal-subkey': pgpy.PGPKey.from_blob(blob)[0], 'sign-only-key': K.pgpy_cert('ed25519b', uid='Sign Only <s@example.org>')[0].pubkey}
+        body = b'message whose recipient list survives a refused recipient'
+        for first in ('cv25519', 'rsa2048', 'pass'):
+            for bname, bad in refusing.items():
+                for then in (None, 'ecdh-p256', 'pass2'):
+                    key = '%s/%s/%s' % (first, bname, then)
+                    if case.get('only') and key != case['only']:
+                        continue
+                    r.states += 1
+                    label = 'message to %s, then the refused recipient %s%s' % (first, bname, ', then %s' % then if then else '')
+                    probs = []
+                    try:
+                        c = SymmetricKeyAlgorithm.AES128
+                        sk = bytes(range(101, 117))
+                        m = self._mk(body, 'b', 'Uncompressed')
+                        e = self._encrypt(m, [first], 'AES128', sk, 'SHA256')
+                        before = bytes(e)
+                        try:
+                            bad.encrypt(e, cipher=c, sessionkey=sk)
+                            r.outcomes['refused:not-refused'] += 1
+                            continue
+                        except Exception:
+                            pass
+                        r.transitions += 1
+                        after = bytes(e)
+                        if after != before:
+                            probs.append('the export of the message changed (%d -> %d octets) although the call raised' % (len(before), len(after)))
+                        try:
+                            rec = rmsg.recognise(after)
+                            if len(rec['esks']) != 1:
+                                probs.append('%d session-key packets after the refused attempt' % len(rec['esks']))
+                        except Exception as ex:
+                            probs.append('the export is not a well-formed message any more: %r' % (ex,))
+                        recips = [first]
+                        if then:
+                            e = self._encrypt(e, [then], 'AES128', sk, 'SHA256')
+                            recips.append(then)
+                        out = bytes(e)
+                        for rc in recips:
+                            r.transitions += 2
+                            try:
+                                pt, info = self._ref_decrypt(out, rc)
+                                if pt != bytes(m):
+                                    probs.append('the reference, as %s, recovers another plaintext' % rc)
+                            except Exception as ex:
+                                probs.append('the reference cannot decrypt as %s: %r' % (rc, ex))
+                            try:
+                                dd = self._pgpy_decrypt(pgpy.PGPMessage.from_blob(out), rc)
+                                if A.msg_view(dd)['data'] != body:
+                                    probs.append('PGPy, as %s, recovers another plaintext' % rc)
+                            except Exception as ex:
+                                probs.append('PGPy cannot decrypt as %s: %r' % (rc, ex))
+                    except A.HarnessBinding:
+                        raise
+                    except Exception as ex:
+                        probs.append('raises %r' % (ex,))
+                    r.outcomes['refused:' + ('ok' if not probs else 'violation')] += 1
+                    if probs:
+                        r.viol('refused', {'part': 'refused', 'refusing': bname}, dict(case, only=key), label + ': ' + '; '.join(probs[:2]))
+        r.samples.append({'refusing_recipients': sorted(refusing)})
+        return r
 
     def c_sessionkeys(self, case):
         """Caller-supplied session keys of particular shapes: all zero, octet sums of 16, 120, 255 and 256 (the two-octet checksum of RFC 4880 5.1 with a zero
